@@ -615,6 +615,12 @@ def mk_index(base: Term, idx: Term) -> Term:
     return ("index", base, idx)
 
 
+def mk_reduce(x: Term, how: str, kwargs=()) -> Term:
+    """x.<how>(**kwargs): the normal form of a reduction of an array (jnp.mean(x, axis=0) and x.mean(axis=0) both read like this)."""
+    f = (x[1] + "." + how) if x[0] == "sym" else ("attr", x, how)
+    return ("call", f, (), tuple(kwargs), None)
+
+
 def mk_replace(base: Term, updates: Tuple[Tuple[str, Term], ...]) -> Term:
     updates = tuple(updates)
     if base[0] == "obj":
